@@ -21,4 +21,7 @@ theorem parse_checks_eof : Facts.parseChecksEOF = some 1 := rfl
 theorem eval_operators : Facts.evalOperators = some ["==", "!=", ">", ">=", "<", "<=", "AND", "OR", "NOT", "IN", "NOT_IN",
     "CONTAINS", "STARTS_WITH", "ENDS_WITH", "MATCHES", ".", "[]"] := rfl
 
+/-- no unchecked `x.(T)` in the evaluator (C14: a wrong dynamic type is an error, not a panic) -/
+theorem eval_assertions_checked : Facts.evalUncheckedAssertions = some [] := rfl
+
 end Syzgy.Tie.Query
